@@ -73,6 +73,178 @@ def zero_take_while(F, s, used, inp):
     return False
 
 
+def _take_while_cases(F, pc, atom, inp, maxk=8):
+    """the count of `take_while(bytes [a,b), P)` is the length of the longest prefix satisfying P: when b - a is entailed
+    to be at most `maxk`, the exact case list [(formula)] — one formula per possible count c: cnt == c, P on the first c
+    bytes, and (c == b - a or not P(byte c)).  None when the atom is not of that form."""
+    key = atom[1][1]
+    if len(key) != 3 or key[1][0] != "bytes" or key[2][0] != "fn":
+        return None
+    sl = key[1][1]
+    if sl[0] != "sl" or sl[1] != inp.base or key[2][1] not in F.bodies:
+        return None
+    a, b = Lin.from_key(sl[2]), Lin.from_key(sl[3])
+    K = None
+    for k in range(maxk + 1):
+        if solver.entails(pc, flit(le(b - a, k))):
+            K = k
+            break
+    if K is None:
+        return None
+
+    def P(j):
+        I2 = Interp(F)
+        byte = IntV(Lin.atom(("byte", inp.base, (a + j).key())), "u8")
+        outs = I2.apply_fn(State(), FnV(key[2][1], captures={}), [byte], {"sp": None})
+        fs = []
+        for s2, k2, r in outs:
+            if not (k2 == "val" and isinstance(r, BoolV)):
+                raise Unmodelled("take_while predicate")
+            fs.append(f_and(*[flit(l) for l in s2.pc], r.f) if s2.pc else r.f)
+        return f_or(*fs) if len(fs) != 1 else fs[0]
+
+    cases = []
+    try:
+        for c in range(K + 1):
+            fs = [flit(eq(Lin.atom(atom), c)), flit(ge(b - a, c))]
+            fs += [P(j) for j in range(c)]
+            fs.append(f_or(flit(eq(b - a, c)), f_not(P(c))))
+            cases.append(f_and(*fs))
+    except Exception:
+        return None
+    return cases
+
+
+def chunk_must_accept(F, res, fn, outs, reps, inp):
+    """a chunk as RFC 3550 §6.5 (and this crate's writer) lays it out — items, a null at t, zero bytes up to the next
+    32-bit boundary — is accepted whatever follows it: every rejecting path that has seen the null at t contradicts
+    "bytes (t, pad4(t+1)) are zero and the input reaches pad4(t+1)".  Decided by cases on (t+1) mod 4, on the value of
+    every later loop's carried offset within (t, t+4] and on the exact count of every bounded take_while."""
+    n = 0
+    tcands = [Lin.atom(a) for rp in reps for a, init in rp.carried]
+    later = {a for rp in reps for a, init in rp.carried}
+    for s, k, v in outs:
+        if not (k == "val" and isinstance(v, StructV) and v.variant == "Err"):
+            continue
+        t = next((t for t in tcands if solver.entails(s.pc, f_and(flit(lt(t, inp.length())), flit(eq(view_byte(inp, t), 0))))), None)
+        if t is None:
+            continue    # rejected before a terminator was seen: an item-level rejection (rule (a) of C03 / item rules)
+        n += 1
+        refuted = True
+        witness = None
+        for r in range(4):
+            f = (4 - r) % 4
+            H = list(s.pc) + [eq(Lin.atom(("mod", (t + 1).key(), 4)), r), ge(inp.length(), t + 1 + f)] + [eq(view_byte(inp, t + j), 0) for j in range(1, f + 1)]
+            if not solver.feasible(H):
+                continue
+            # case lists
+            splits = []
+            atoms = set()
+            for l in s.pc:
+                atoms |= set(atoms_deep(l[1])) if l[0] in ("le", "eq", "ne") else set()
+            for x in (v.fields.get("0"),):
+                pass
+            for a in sorted(atoms, key=repr):
+                if a[0] == "cnt" and isinstance(a[1], tuple) and a[1][0] == "take_while":
+                    cs = _take_while_cases(F, H, a, inp)
+                    if cs is not None:
+                        splits.append(cs)
+                elif a in later and Lin.atom(a) != t:
+                    o = Lin.atom(a)
+                    if solver.entails(H, f_and(flit(ge(o, t)), flit(le(o, t + 4)))):
+                        splits.append([flit(eq(o, t + j)) for j in range(0, 5)])
+
+            def rec(i, extra):
+                if i == len(splits):
+                    return solver.entails(H, f_not(f_and(*extra))) if extra else False
+                for c in splits[i]:
+                    if solver.entails(H, f_not(f_and(*(extra + [c])))):
+                        continue
+                    if not rec(i + 1, extra + [c]):
+                        return False
+                return True
+            if not rec(0, []):
+                refuted = False
+                witness = f"(t+1) mod 4 == {r}: zero fill of {f} byte(s)"
+                break
+        res.ob(refuted, "chunk-accept", fn,
+               "SdesChunk: items, a null, and zero bytes up to the next 32-bit boundary are accepted whatever follows (the next chunk may start with zero bytes)",
+               detail=(f"possible when {witness}: rejection {v.fields[chr(48)]!r}"[:400] if witness else ""), pc=s.pc)
+    return n
+
+
+def packet_must_accept(F, res, d, chunk_fn):
+    """the packet parser, with the chunk parser replaced by its contract ("Ok(chunk, used) with 4 <= used <= view length,
+    or a rejection of that view"): (i) the walk is the recurrence o' = o + used from 4, every chunk view starts at o and
+    reaches at least len - padding (a shorter view would reject a chunk that fits), and (ii) every rejection that is not
+    the chunk parser's own contradicts the RFC framing of an SDES packet."""
+    from .c09 import padding_expr, wf_cases, zero_padding_instances
+    from ..analysis import ERROR_OF
+    from ..lin import dnf
+    I = Interp(F)
+    inp = input_slice()
+    H = Header(inp)
+    calls = []
+    used_syms = set()
+
+    def hook(tgt, e, st, args):
+        if tgt != chunk_fn or not args or not isinstance(args[0], SliceV):
+            return None
+        if not I.quiet:     # (invariant-inference rounds run the body too: only the final pass states facts)
+            calls.append((st.clone(), args[0]))
+        u = I.fresh_int("chunk-used", "usize")
+        used_syms.add(next(iter(u.l.t)))
+        s_ok = st.clone()
+        s_ok.pc.append(ge(u.l, 4))
+        s_ok.pc.append(le(u.l, args[0].length()))
+        chunk = StructV("sdes::SdesChunk", "SdesChunk", {"ssrc": I.fresh_int("chunk-ssrc", "u32"), "items": Opaque("items of the chunk")})
+        erv = StructV("RtcpParseError", ERROR_OF, {"view": args[0], "__by": FnV(chunk_fn)})
+        return [(s_ok, "val", ok(TupV([chunk, u]))), (st.clone(), "val", err(erv))]
+    I.call_hook = hook
+    try:
+        outs = I.run(d, [inp])
+    except Unmodelled as ex:
+        res.ob(False, "unmodelled", d, f"packet-level contract run: {ex}")
+        return 0
+    n = 0
+    # (i) the recurrence and the views
+    offs = []
+    for rp in I.loop_reports:
+        if rp.fn != d:
+            continue
+        for a, init in rp.carried:
+            if lin(init).is_const() and rp.backs and all(new.get(a) is not None and len((new[a] - Lin.atom(a)).t) == 1 and
+                                                        next(iter((new[a] - Lin.atom(a)).t)) in used_syms and (new[a] - Lin.atom(a)).c == 0 and
+                                                        list((new[a] - Lin.atom(a)).t.values()) == [1] for delta, new in rp.backs):
+                offs.append(Lin.atom(a) + (4 - lin(init)))     # counted from byte 4, or from 0 with the header added at each use
+    res.floor("chunk parser calls seen in the packet walk", len(calls), 1)
+    res.ob(bool(offs), "sdes-walk", d, "Sdes: the chunk walk is the recurrence offset' = offset + (length the chunk parser consumed), from byte 4")
+    n += 1
+    for st, view in calls:
+        o = next((o for o in offs if view.base == inp.base and solver.entails(st.pc, flit(eq(view.start, inp.start + o)))), None)
+        good = o is not None
+        if good:
+            for cond, pad in padding_expr(H):
+                for conj in dnf(cond):
+                    if solver.feasible(st.pc, conj):
+                        good = good and solver.entails(st.pc + list(conj), flit(ge(view.end, inp.start + inp.length() - pad)))
+        res.ob(good, "sdes-walk", d, "Sdes: each chunk is parsed from a view that starts at the walk's offset and reaches (at least) len - padding", detail=repr(view)[:200], pc=st.pc)
+        n += 1
+    # (ii) no rejection of its own on a well-framed packet
+    for fs, pad in wf_cases(H, "Sdes"):
+        for s, k, v in outs:
+            if not (k == "val" and isinstance(v, StructV) and v.variant == "Err"):
+                continue
+            e = v.fields["0"]
+            if isinstance(e, StructV) and e.variant == ERROR_OF:
+                continue
+            zs = zero_padding_instances(s.pc, inp, H.len - pad, H.len)
+            feas = any(solver.feasible(s.pc, conj) for conj in dnf(f_and(*(fs + zs))))
+            res.ob(not feas, "must-accept", d, f"a well-framed Sdes packet is rejected only by the chunk parser, never with {e!r}"[:300], pc=s.pc)
+            n += 1
+    return n
+
+
 def run(ctx, res):
     F = ctx.F
     D = Disc(F)
@@ -199,6 +371,7 @@ def run(ctx, res):
                 if k == "val" and isinstance(v, StructV) and v.variant == "Ok" and id(s) in terminated:
                     if zero_take_while(F, s, v.fields["0"].items[1], inp):
                         zero_loops += 1
+        n_chunk += chunk_must_accept(F, res, chunk_parse[0], outs, reps, inp)
         res.ob(zero_loops >= 1, "terminator", chunk_parse[0], "SdesChunk: the fill after the terminator is skipped one byte at a time and only over zero bytes (a non-zero fill leaves the offset unaligned and is rejected)")
         for o in I.obligations:
             if not o.ok:
@@ -229,10 +402,13 @@ def run(ctx, res):
         found = solver.entails(s.pc, flit(eq(inp.length(), 4)))
         for rp in I.loop_reports:
             if rp.fn == d:
-                for a, _ in rp.carried:
-                    if solver.entails(s.pc, flit(eq(Lin.atom(a), inp.length() - P))):
+                for a, init in rp.carried:
+                    shift = 4 - lin(init) if lin(init).is_const() else lin(0)
+                    if solver.entails(s.pc, flit(eq(Lin.atom(a) + shift, inp.length() - P))):
                         found = True
         res.ob(found, "walk-end", d, "Sdes: the chunk walk starts at byte 4 and ends exactly at len - padding", pc=s.pc)
+    n_acc = packet_must_accept(F, res, d, chunk_parse[0]) if chunk_parse else 0
+    res.floor("packet-level contract checks", n_acc, 4)
     res.floor("item checks", n_item, 12)
     res.floor("chunk outcomes checked", n_chunk, 4)
     res.floor("packet outcomes checked", n_pkt, 2)
